@@ -44,7 +44,8 @@ Inductive case :=
 | CDial (allow : bool) (proxies : list (list N * list N)) (addr ahost : list N)
         (split : option (host * list N)) (ans : option (list ip)) (obs_proxy : bool) (obs : dobs)
 | CRedirect (allow : bool) (first : purl) (chain : list hop) (sent : N)
-| CEndToEnd (allow : bool) (u : option purl) (ans_check ans_dial ans_later : option (list ip)) (hits : N).
+| CEndToEnd (allow : bool) (u : option purl) (ans_check ans_dial ans_later : option (list ip)) (hits : N)
+            (extra_lookups : N).   (* resolutions of the name during the request beyond the vetted one *)
 
 (* --- independent classification: decode the bytes to a number, use the CIDR spec --- *)
 Definition decode (x : ip) : option addr :=
@@ -103,7 +104,9 @@ Definition check_case (c : case) : bool :=
       Bool.eqb isp obs_proxy &&
       dobs_eqb (project_dial (guarded_dial allow isp split ans (fun _ => false)) ans) obs
   | CRedirect allow first chain sent => redirect_sent allow first chain =? sent
-  | CEndToEnd allow u a0 a1 _ hits => e2e_hits allow u a0 a1 =? hits
+  | CEndToEnd allow u a0 a1 _ hits extra =>
+      (* the modelled client consults the resolver exactly once per dial: no further resolution *)
+      (e2e_hits allow u a0 a1 =? hits) && (extra =? 0)
   end.
 
 (** the property on the implementation's observed behaviour, classifying the
@@ -129,8 +132,10 @@ Definition holds_on (c : case) : bool :=
       then match obs with OAttempt => false | _ => true end else true
   | CRedirect allow first chain sent =>
       if allow then true else sent <=? 1 + allowed_prefix chain
-  | CEndToEnd allow u a0 a1 a2 hits =>
+  | CEndToEnd allow u a0 a1 a2 hits extra =>
       (* whichever look-up (check time, dial time, or one more at dial time) shows an internal
          address, nothing is reached *)
-      if negb allow && (any_internal a0 || any_internal a1 || any_internal a2) then hits =? 0 else true
+      (if negb allow && (any_internal a0 || any_internal a1 || any_internal a2) then hits =? 0 else true) &&
+      (* no re-resolution at dial time: the connection uses the vetted answer *)
+      (if negb allow then extra =? 0 else true)
   end.
